@@ -97,9 +97,9 @@ inductive DeliverSpec (topo : Topo) (fl : List Frame) (i : Nat) : List Frame →
       ipv4Demux n nd f.pkt = .ok (.routed (some p)) → routerDemux n nd f.pkt = .ok (some p) →
       DeliverSpec topo fl i (fl.eraseIdx i) [p] [.hop n f.pkt]
 
-theorem ipv4Demux_routed {n : Nat} {nd : Node} {pkt : Pkt} {r : Option Pending}
-    (h : ipv4Demux n nd pkt = .ok (.routed r)) : routerDemux n nd pkt = .ok r := by
-  unfold ipv4Demux at h
+theorem ipv4DemuxParsed_routed {n : Nat} {nd : Node} {pkt : Pkt} {r : Option Pending}
+    (h : ipv4DemuxParsed n nd pkt = .ok (.routed r)) : routerDemux n nd pkt = .ok r := by
+  unfold ipv4DemuxParsed at h
   split at h
   · cases h
   · split at h
@@ -116,6 +116,18 @@ theorem ipv4Demux_routed {n : Nat} {nd : Node} {pkt : Pkt} {r : Option Pending}
           simp only [Except.ok.injEq, Demuxed.routed.injEq] at h
           subst h; exact hr
     · cases h
+
+theorem ipv4Demux_parsed {n : Nat} {nd : Node} {pkt : Pkt} {d : Demuxed} (hd : d ≠ .dropped)
+    (h : ipv4Demux n nd pkt = .ok d) : headerRejected pkt.hdr = false ∧ ipv4DemuxParsed n nd pkt = .ok d := by
+  unfold ipv4Demux at h
+  split at h
+  · simp only [Except.ok.injEq] at h; exact absurd h.symm hd
+  · rename_i hr
+    exact ⟨by simpa using hr, h⟩
+
+theorem ipv4Demux_routed {n : Nat} {nd : Node} {pkt : Pkt} {r : Option Pending}
+    (h : ipv4Demux n nd pkt = .ok (.routed r)) : routerDemux n nd pkt = .ok r :=
+  ipv4DemuxParsed_routed (ipv4Demux_parsed (by intro h; cases h) h).2
 
 theorem deliverCore_spec {topo : Topo} {fl : List Frame} {i : Nat} {fl' : List Frame} {ps : List Pending}
     {evs : List Ev} (h : deliverCore topo fl i = .ok (fl', ps, evs)) : DeliverSpec topo fl i fl' ps evs := by
@@ -827,7 +839,8 @@ theorem ipv4Demux_app {n : Nat} {nd : Node} {pkt : Pkt} {port : Nat} {data : Lis
     findBind nd.binds pkt.hdr.dst (protoClass pkt.hdr.proto) = some .udp ∧ isWhole pkt.hdr = true ∧
       data = pkt.payload.drop 8 ∧
       (nd.udpPorts.contains (pkt.hdr.dst, port) || nd.udpPorts.contains (0, port)) = true := by
-  unfold ipv4Demux at h
+  replace h := (ipv4Demux_parsed (by intro h; cases h) h).2
+  unfold ipv4DemuxParsed at h
   split at h
   · cases h
   · rename_i up hb
